@@ -61,6 +61,19 @@ def wireChunk (idx : Nat) (s : Nat) (w : WireSt) (c : RawChunk) : WireSt :=
         else { w with viol := some s!"tsn-gap@{idx}" }
   else w
 
+/-- the datagram starts with an INIT chunk -/
+def isInitPacket : List RawChunk → Bool
+  | c :: _ => c.ty.toNat == ctInit
+  | [] => false
+
+/-- tag rule and chunk walk for a datagram that passed the size and CRC checks -/
+def wirePacket (w : WireSt) (idx : Nat) (s : Nat) (pk : Packet) : WireSt :=
+  let isInit := isInitPacket pk.chunks
+  let peer := w.side (1 - s)
+  let tagOk := if isInit then pk.vtag == 0 else peer.tag == some pk.vtag
+  if !tagOk then { w with viol := some s!"vtag@{idx}" }
+  else pk.chunks.foldl (wireChunk idx s) w
+
 /-- one captured datagram `p` emitted by side `s` (0 = A, 1 = B) -/
 def wireStep (w : WireSt) (idx : Nat) (s : Nat) (p : Bytes) : WireSt :=
   if w.viol.isSome then w else
@@ -69,12 +82,7 @@ def wireStep (w : WireSt) (idx : Nat) (s : Nat) (p : Bytes) : WireSt :=
   else
     match parsePacket p with
     | none => { w with viol := some s!"crc@{idx}" }
-    | some pk =>
-      let isInit := match pk.chunks with | c :: _ => c.ty.toNat == ctInit | [] => false
-      let peer := w.side (1 - s)
-      let tagOk := if isInit then pk.vtag == 0 else peer.tag == some pk.vtag
-      if !tagOk then { w with viol := some s!"vtag@{idx}" }
-      else pk.chunks.foldl (wireChunk idx s) w
+    | some pk => wirePacket w idx s pk
 
 def wireCheck (pkts : List (Nat × Bytes)) : WireSt :=
   (pkts.foldl (fun (st : WireSt × Nat) p => (wireStep st.1 st.2 p.1 p.2, st.2 + 1)) ({}, 0)).1
